@@ -190,6 +190,76 @@ class C12:
             return None
         return "; ".join(sorted(set(hows)))
 
+    def select_guarded(self, view, prov, roots, wrapper):
+        """`select(VALID_CONSTANT, x, pred(x))` (or the mirrored form with a negated predicate): x when the invariant
+        predicate holds for x, a valid constant otherwise."""
+        if len(roots) != 1 or roots[0].kind != "call" or roots[0].path:
+            return None
+        t = view.blocks[roots[0].site[0]]["term"]
+        seg = mir.last_seg(mir.callee_name(t)) or mir.last_seg(mir.callee_decl(t))
+        if seg not in SELECTS or len(t["args"]) != 3:
+            return None
+        tc = self.truth_chain(view, prov, t["args"][2])
+        if tc is None:
+            return None
+        pred, recv, negated = tc
+        pol = PRED.get(wrapper, {}).get(pred)
+        if pol is None:
+            return None
+        if wrapper == "Odd" and pred not in PRED["Odd"]:
+            return None
+        if negated:
+            pol = -pol
+        ra = mir.uniq_roots(prov.roots_of_operand(t["args"][0]))
+        rb = mir.uniq_roots(prov.roots_of_operand(t["args"][1]))
+        guarded, other = (rb, ra) if pol > 0 else (ra, rb)     # select(a, b, c) yields b when c holds
+        oarg = t["args"][0] if pol > 0 else t["args"][1]
+        same = self.same_value(view, recv, guarded)
+        if not same and recv and guarded and {r.key() for r in recv} == {r.key() for r in guarded} and \
+                all(r.kind not in ("multi", "unknown") for r in recv):
+            same = True      # a loop-carried value: the predicate and the selected operand read the same variable
+        if not same:
+            return None
+        how = self.const_valid(other, wrapper) or self.derived(view, prov, other, wrapper)
+        if not how:
+            inner = self._promoted_const(view, oarg)
+            if inner and any(inner == c for c in self.valid_consts.get(wrapper, [])):
+                how = "constant %s" % inner
+        if not how:
+            return None
+        return "%s(.., .., %s%s(x)) yields x only when the predicate holds, else %s" % (
+            seg, "!" if negated else "", pred, how)
+
+    def _promoted_const(self, view, op):
+        """`&CONST` is promoted into its own body: name of the constant a (re-borrowed) promoted reference refers to"""
+        for _ in range(8):
+            if op[0] == "k":
+                break
+            if op[0] not in ("c", "m"):
+                return None
+            l = op[1][0]
+            nxt = None
+            for bb in view.blocks:
+                for st in bb["stmts"]:
+                    if st[0] == "a" and st[1][0] == l and not st[1][1]:
+                        if st[2][0] == "use":
+                            nxt = st[2][1]
+                        elif st[2][0] == "ref" and st[2][2][1] in (["*"], []):
+                            nxt = ["c", [st[2][2][0], []]]
+            if nxt is None:
+                return None
+            op = nxt
+        if op[0] != "k" or op[5] is None:
+            return None
+        pb = self.f.bodies.get("%s::{promoted#%d}" % (op[3], op[5]))
+        if not pb:
+            return None
+        for bb in pb["blocks"]:
+            for st in bb["stmts"]:
+                if st[0] == "a" and st[2][0] == "use" and st[2][1][0] == "k":
+                    return st[2][1][3] or st[2][1][2]
+        return None
+
     def const_valid(self, roots, wrapper):
         ok = self.valid_consts.get(wrapper, [])
         okc = self.valid_consts.get(wrapper + "_calls", [])
@@ -440,6 +510,10 @@ class C12:
                             g = self.guarded(view, prov, bi, roots, wrapper)
                             if g:
                                 auto = "guarded: " + g
+                        if not auto:
+                            g = self.select_guarded(view, prov, roots, wrapper)
+                            if g:
+                                auto = "select-guarded: " + g
                         if not auto and wrapper == "Odd":
                             g = low_bit_forced(view, op, bi)
                             if g:
@@ -676,6 +750,25 @@ def _low_bit_forced_on(view, v, site_bb, onward):
     or_site = None
     mut_blocks = []
     refs = {}
+    # Box / pointer temporaries copied out of the value (how MIR reaches `v.limbs[i]` of a boxed slice)
+    ptrs = set()
+    changed = True
+    while changed:
+        changed = False
+        for bb in view.blocks:
+            if bb["cleanup"]:
+                continue
+            for s in bb["stmts"]:
+                if s[0] != "a" or s[1][1] or s[1][0] in ptrs or s[1][0] == v:
+                    continue
+                rv = s[2]
+                src = rv[1][1] if rv[0] == "use" and rv[1][0] in ("c", "m") else (
+                    rv[2][1] if rv[0] == "cast" and rv[2][0] in ("c", "m") else None)
+                if src is not None and (src[0] == v or src[0] in ptrs) and \
+                        all(isinstance(pe, list) and pe[0] == "f" for pe in src[1]) and \
+                        (src[0] in ptrs or src[1]) and mir.is_ptr_ty(view.locals[s[1][0]]) | ("Box<" in view.locals[s[1][0]]):
+                    ptrs.add(s[1][0])
+                    changed = True
     for bi, bb in enumerate(view.blocks):
         if bb["cleanup"]:
             continue
@@ -684,9 +777,12 @@ def _low_bit_forced_on(view, v, site_bb, onward):
                 continue
             if s[1][0] == v and s[1][1]:
                 mut_blocks.append(bi)
+            if s[1][0] in ptrs and s[1][1]:
+                mut_blocks.append(bi)
             rv = s[2]
-            if rv[0] in ("ref", "rawptr") and (rv[1] == "mut" or "Mut" in str(rv[1])) and rv[2][0] == v and not s[1][1]:
-                refs[s[1][0]] = (bi, rv[2][1])
+            if rv[0] in ("ref", "rawptr") and (rv[1] == "mut" or "Mut" in str(rv[1])) and not s[1][1] and \
+                    (rv[2][0] == v or rv[2][0] in ptrs):
+                refs[s[1][0]] = (bi, [pe for pe in rv[2][1] if pe != "*"])
                 mut_blocks.append(bi)
     for bi, t in view.calls():
         if view.blocks[bi]["cleanup"] or mir.last_seg(mir.callee_decl(t)) != "bitor_assign" or len(t["args"]) != 2:
